@@ -213,12 +213,29 @@ def setup_collect(eng):
                 'for var in node[1]#2'):
         eng.loop_specs[(CI, hdr)] = generic_node_loop('child')
     # iterated object is known not to be a leaf here: elements are nodes
-    # ('for sig in cmd[1]' is guarded by 'not cmd[1].is_leaf()')
-    for hdr in ('for constr in cmd[2]', 'for num in node[2:]',
-                'for sig in cmd[1]'):
+    for hdr in ('for num in node[2:]', ):
         eng.loop_specs[(CI, hdr)] = LoopSpec(
             inv=lambda e, env_: True,
             elem=lambda e, env_, p: nm.lazy_node(e, p, 'child'))
+
+    # loops over one child of the command: what an element is follows from
+    # what that child is on this path (a list: a node; a leaf: a character of
+    # its text) - asked of the child, not assumed from the guard in the code
+    def child_elem(index):
+
+        def elem(e, env_, p):
+            it = e.getitem(env_.vars['cmd'], index)
+            if e.truth(e.call(e.getattr(it, 'is_leaf'), [], {})):
+                c = p.fresh_str('child_char')
+                p.assume(z3.Length(c) == 1)
+                return sym.mk_str([('v', c)])
+            return nm.lazy_node(e, p, 'child')
+
+        return elem
+
+    for hdr, index in (('for constr in cmd[2]', 2), ('for sig in cmd[1]', 1)):
+        eng.loop_specs[(CI, hdr)] = LoopSpec(inv=lambda e, env_: True,
+                                             elem=child_elem(index))
     for hdr in ('for (id, sel) in enumerate(constr[1:])',
                 'for (i, sel) in enumerate(constr[1:])'):
         eng.loop_specs[(CI, hdr)] = LoopSpec(
